@@ -5,6 +5,7 @@ import Gv.Model.Fmt.Phylip
 import Gv.Model.Fmt.Stockholm
 import Gv.Model.Fmt.Clustal
 import Gv.Model.Fmt.Partition
+import Gv.Model.Fmt.Nexus
 import Gv.Gen.FmtFacts
 /-!
 Oracle handlers for the alignment formats (C02 round trips, C03 parser outcomes).
@@ -97,6 +98,8 @@ def modelParse (fmt : String) (o : POpts) (bs : List Byte) : Option PRes :=
   | "stockholm" => some (liftOutcome (Stockholm.parse Gen.FmtFacts.stockholm_markup_stops_at_eof
       Gen.FmtFacts.stockholm_rejects_empty o bs))
   | "clustal" => some (liftOutcome (Clustal.parse Gen.FmtFacts.clustal_checks_row_index o bs))
+  | "nexus" => some (liftOutcome (Nexus.parse ⟨Gen.FmtFacts.nexus_comment_stops_at_eof,
+      Gen.FmtFacts.nexus_rejects_negative_counts, Gen.FmtFacts.nexus_rejects_empty_rows⟩ o bs))
   | _ => none
 
 /-- what `buildAlign` of the harness does: AddSequence one by one under IGNORE_NONE -/
@@ -117,6 +120,7 @@ def modelWrite (fmt : String) (_w : WOpts) (_alphabet : Nat) (b : Bag) : Option 
   | "phylip" => some (Phylip.write _w.strict _w.oneline _w.noblock b.rows)
   | "stockholm" => some (Stockholm.write b.rows)
   | "clustal" => some (Clustal.write harnessVersion _alphabet b.rows)
+  | "nexus" => some (Nexus.write _alphabet b.rows)
   | _ => none
 
 /-! ### C03 predicate on the implementation's outcome -/
